@@ -101,7 +101,7 @@ class Git:
 
     def rev_parse(self, commit_symbol: str) -> Optional[str]:
         result = subprocess.run(
-            ["git", "rev-parse", commit_symbol],
+            ["git", "rev-parse", "--verify", "{}^{{commit}}".format(commit_symbol)],
             cwd=self._project_root,
             capture_output=True,
             text=True,
